@@ -423,6 +423,13 @@ fn resolve_instruction_match_inner(
                     arg_value,
                     param.typ)?;
 
+                // An argument out of range fails the candidate,
+                // whether or not the production looks at the parameter
+                if constrained_arg_value.should_propagate()
+                {
+                    return Ok(constrained_arg_value);
+                }
+
                 eval_ctx.set_local(
                     &param.name,
                     constrained_arg_value);
